@@ -1125,15 +1125,17 @@ pub fn run(ctx: &mut Ctx, args: &[String]) {
     let count = std::cmp::max(1, count / 4);
     for_caps!(cap_list, ctx, count);
     for_caps!(cap_vec, ctx, count);
-    // capacities above the 128-byte inline buffer of the SmallVec, generators only
+    // capacities above the 128-byte inline buffer of the SmallVec, generators only.  Like the other capacities of 256 and
+    // more they are `spread`: every shard runs the flavour and `arb_flavour` deals its units round-robin, so the fixed
+    // block of entropy inputs that make the generators succeed is always among the inputs (it is unit 0, shard 0)
     if ctx.has("arb") {
-        if ctx.wants("list:2048", "bitfield") {
+        if ctx.wants("list:2048", "bitfield,spread") {
             arb_flavour::<BitList<typenum::U2048>>(ctx, count);
         }
-        if ctx.wants("vec:2048", "bitfield") {
+        if ctx.wants("vec:2048", "bitfield,spread") {
             arb_flavour::<BitVector<typenum::U2048>>(ctx, count);
         }
-        if ctx.wants("vec:4096", "bitfield") {
+        if ctx.wants("vec:4096", "bitfield,spread") {
             arb_flavour::<BitVector<typenum::U4096>>(ctx, count);
         }
     }
